@@ -23,101 +23,66 @@ func runC17(c *Ctx, r *Report) {
 	sent, okS := c.constInt(c.fit, "sint32Invalid")
 	r.check(okS && sent == 0x7FFFFFFF, "C17-R1-sentinel", "sint32Invalid", "", "0x7FFFFFFF", fmt.Sprintf("sint32Invalid is %#x, the sint32 invalid value is 0x7FFFFFFF", sent))
 
-	single := func(fname string) (ast.Stmt, *ast.FuncDecl) {
-		fd := c.decl(c.fn(c.fit, fname))
-		if fd == nil || len(fd.Body.List) == 0 {
-			return nil, fd
+	// R1/R5: decided on the path terms of the SSA (symexec.go), so that the sentinel test may be
+	// written inline or through Invalid(), with == or !=, in either branch order.
+	pathsOf := func(fname string) ([]string, string, string) {
+		fn := c.ssaFn(c.fn(c.fit, fname))
+		if fn == nil {
+			return nil, "not found", ""
 		}
-		return fd.Body.List[0], fd
+		o := symPaths(fn, nil, 3)
+		var ps []string
+		for _, p := range o.paths {
+			ps = append(ps, p.String())
+		}
+		sort.Strings(ps)
+		return ps, o.why, c.pos(fn.Pos())
 	}
-	sentinelGuard := func(s ast.Stmt, recv string) bool {
-		ifs, ok := s.(*ast.IfStmt)
-		if !ok {
+	same := func(got, want []string) bool {
+		sort.Strings(want)
+		if len(got) != len(want) {
 			return false
 		}
-		be, ok := unparen(ifs.Cond).(*ast.BinaryExpr)
-		if !ok || be.Op != token.EQL || exprStr(be.X) != recv+".semicircles" {
-			return false
+		for i := range got {
+			if got[i] != want[i] {
+				return false
+			}
 		}
-		v, ok := exprInt(info, be.Y)
-		return ok && v == 0x7FFFFFFF
+		return true
 	}
+	const S = "(fld0 p0)"
+	const isSent = "(== (fld0 p0) 2147483647)"
+	deg := symBin(token.MUL, "(conv:float64 "+S+")", "*g:semiToDegFactor")
 	for _, T := range []string{"Latitude", "Longitude"} {
-		// Semicircles
-		if s, fd := single(T + ".Semicircles"); s != nil {
-			rs, ok := s.(*ast.ReturnStmt)
-			r.check(ok && len(rs.Results) == 1 && strings.HasSuffix(exprStr(rs.Results[0]), ".semicircles") && len(fd.Body.List) == 1, "C17-R1-sentinel", T+".Semicircles", c.pos(fd.Pos()), "returns the stored value", T+".Semicircles does not return the stored field")
-		} else {
-			r.fail("C17-R1-sentinel", T+".Semicircles", "", "not found")
+		if st, ok := c.fit.Types.Scope().Lookup(T).Type().Underlying().(*types.Struct); !ok || st.NumFields() != 1 {
+			r.undecided("C17-R1-sentinel", T, "", T+" is not a one-field struct")
+			continue
 		}
-		// Invalid
-		if s, fd := single(T + ".Invalid"); s != nil {
-			rs, ok := s.(*ast.ReturnStmt)
-			okI := false
-			if ok && len(rs.Results) == 1 {
-				if be, ok := unparen(rs.Results[0]).(*ast.BinaryExpr); ok && be.Op == token.EQL && strings.HasSuffix(exprStr(be.X), ".semicircles") {
-					if v, ok := exprInt(info, be.Y); ok && v == 0x7FFFFFFF {
-						okI = true
-					}
-				}
-			}
-			r.check(okI, "C17-R1-sentinel", T+".Invalid", c.pos(fd.Pos()), "semicircles == sentinel", T+".Invalid does not compare with the sentinel 0x7FFFFFFF")
-		} else {
-			r.fail("C17-R1-sentinel", T+".Invalid", "", "not found")
+		type exp struct {
+			rule, fn, okMsg string
+			want            []string
 		}
-		// Degrees
-		if _, fd := single(T + ".Degrees"); fd != nil && len(fd.Body.List) == 2 {
-			rn := fd.Recv.List[0].Names[0].Name
-			okG := sentinelGuard(fd.Body.List[0], rn)
-			okNaN := false
-			if okG {
-				ifs := fd.Body.List[0].(*ast.IfStmt)
-				if len(ifs.Body.List) == 1 {
-					if rs, ok := ifs.Body.List[0].(*ast.ReturnStmt); ok && len(rs.Results) == 1 {
-						if call, ok := rs.Results[0].(*ast.CallExpr); ok && isPkgFunc(callee(info, call), "math", "NaN") {
-							okNaN = true
-						}
-					}
-				}
-			}
-			rs, ok := fd.Body.List[1].(*ast.ReturnStmt)
-			okMul := ok && len(rs.Results) == 1 && strings.ReplaceAll(exprStr(rs.Results[0]), " ", "") == "float64("+rn+".semicircles)*semiToDegFactor"
-			r.check(okG && okNaN && okMul, "C17-R1-sentinel", T+".Degrees", c.pos(fd.Pos()), "NaN iff sentinel, else float64(semicircles) * semiToDegFactor", fmt.Sprintf("%s.Degrees: sentinel guard=%v returns NaN=%v multiplies by semiToDegFactor=%v", T, okG, okNaN, okMul))
-		} else {
-			r.undecided("C17-R1-sentinel", T+".Degrees", "", "Degrees is not `if sentinel { return NaN }; return float64(s) * factor`")
+		for _, e := range []exp{
+			{"C17-R1-sentinel", T + ".Semicircles", "returns the stored value", []string{"[] -> " + S}},
+			{"C17-R1-sentinel", T + ".Invalid", "semicircles == sentinel", []string{"[] -> " + isSent}},
+			{"C17-R1-sentinel", T + ".Degrees", "NaN iff sentinel, else float64(semicircles) * semiToDegFactor",
+				[]string{"[T:" + isSent + "] -> (call math.NaN)", "[F:" + isSent + "] -> " + deg}},
+		} {
+			got, why, pos := pathsOf(e.fn)
+			r.check(why == "" && same(got, e.want), e.rule, e.fn, pos, e.okMsg, fmt.Sprintf("%s is not `%s`: paths %v %s", e.fn, e.okMsg, got, why))
 		}
-		// String
-		if _, fd := single(T + ".String"); fd != nil && len(fd.Body.List) == 2 {
-			rn := fd.Recv.List[0].Names[0].Name
-			okG := sentinelGuard(fd.Body.List[0], rn)
-			okInv := false
-			if okG {
-				ifs := fd.Body.List[0].(*ast.IfStmt)
-				if len(ifs.Body.List) == 1 {
-					if rs, ok := ifs.Body.List[0].(*ast.ReturnStmt); ok && len(rs.Results) == 1 {
-						if v, ok := constStrOf(info, rs.Results[0]); ok && v == "Invalid" {
-							okInv = true
-						}
-					}
-				}
+		// String: "Invalid" iff sentinel, else FormatFloat(Degrees(), 'f', 5, 32|64)
+		got, why, pos := pathsOf(T + ".String")
+		okStr := false
+		for _, bits := range []string{"32", "64"} {
+			if same(got, []string{"[T:" + isSent + "] -> \"Invalid\"", "[F:" + isSent + "] -> (call strconv.FormatFloat " + deg + " 102 5 " + bits + ")"}) {
+				okStr = true
 			}
-			okFmt := false
-			if rs, ok := fd.Body.List[1].(*ast.ReturnStmt); ok && len(rs.Results) == 1 {
-				if call, ok := rs.Results[0].(*ast.CallExpr); ok && isPkgFunc(callee(info, call), "strconv", "FormatFloat") && len(call.Args) == 4 {
-					f, ok1 := exprInt(info, call.Args[1])
-					p, ok2 := exprInt(info, call.Args[2])
-					bits, ok3 := exprInt(info, call.Args[3])
-					deg, ok4 := call.Args[0].(*ast.CallExpr)
-					okFmt = ok1 && ok2 && ok3 && ok4 && f == 'f' && p == 5 && (bits == 32 || bits == 64) && isMethod(callee(info, deg), modPath, T, "Degrees")
-				}
-			}
-			r.check(okG && okInv && okFmt, "C17-R5-string", T+".String", c.pos(fd.Pos()), "\"Invalid\" iff sentinel, else FormatFloat(Degrees(), 'f', 5, _)", fmt.Sprintf("%s.String: sentinel guard=%v \"Invalid\"=%v format=%v", T, okG, okInv, okFmt))
-		} else {
-			r.undecided("C17-R5-string", T+".String", "", "String shape")
 		}
+		r.check(why == "" && okStr, "C17-R5-string", T+".String", pos, "\"Invalid\" iff sentinel, else FormatFloat(Degrees(), 'f', 5, _)", fmt.Sprintf("%s.String is not `\"Invalid\" iff sentinel, else FormatFloat(degrees, 'f', 5, 32|64)`: paths %v %s", T, got, why))
 		// Invalid constructors
-		okH, why := c15InvalidHelper(c, "New"+T+"Invalid")
-		r.check(okH, "C17-R1-sentinel", "New"+T+"Invalid", "", why, why)
+		okH, whyH := c15InvalidHelper(c, "New"+T+"Invalid")
+		r.check(okH, "C17-R1-sentinel", "New"+T+"Invalid", "", whyH, whyH)
 	}
 
 	// ---- R2 guard intervals ----------------------------------------------------------------------
@@ -127,56 +92,39 @@ func runC17(c *Ctx, r *Report) {
 	// ---- R3 degree constructors ---------------------------------------------------------------------
 	for _, e := range []struct {
 		name  string
-		limit float64
-	}{{"NewLatitudeDegrees", 90}, {"NewLongitudeDegrees", 180}} {
-		fd := c.decl(c.fn(c.fit, e.name))
-		if fd == nil || len(fd.Body.List) != 2 {
-			r.undecided("C17-R3-degree-guards", e.name, "", "not `if out of range { return invalid }; return T{int32(deg * factor)}`")
+		limit string
+	}{{"NewLatitudeDegrees", "90"}, {"NewLongitudeDegrees", "180"}} {
+		fn := c.ssaFn(c.fn(c.fit, e.name))
+		if fn == nil {
+			r.undecided("C17-R3-degree-guards", e.name, "", "not found")
 			continue
 		}
-		ifs, ok := fd.Body.List[0].(*ast.IfStmt)
-		okG := false
-		if ok {
-			if or, ok := unparen(ifs.Cond).(*ast.BinaryExpr); ok && or.Op == token.LOR {
-				hi, ok1 := unparen(or.X).(*ast.BinaryExpr)
-				lo, ok2 := unparen(or.Y).(*ast.BinaryExpr)
-				if ok1 && ok2 && hi.Op == token.GEQ && lo.Op == token.LEQ && exprStr(hi.X) == "degrees" && exprStr(lo.X) == "degrees" {
-					hv, okh := exprConst(info, hi.Y)
-					lv, okl := exprConst(info, lo.Y)
-					if okh && okl {
-						hf, _ := constFloat(hv)
-						lf, _ := constFloat(lv)
-						okG = hf == e.limit && lf == -e.limit
-					}
+		o := symPaths(fn, nil, 3)
+		const inv = "(struct f0=2147483647)"
+		conv := "(struct f0=(conv:int32 " + symBin(token.MUL, "p0", "*g:degToSemiFactor") + "))"
+		wantConds := []string{"F:(<= p0 -" + e.limit + ")", "F:(>= p0 " + e.limit + ")"}
+		nConv, okAll := 0, o.why == "" && len(o.paths) > 0
+		var desc []string
+		for _, p := range o.paths {
+			desc = append(desc, p.String())
+			if len(p.rets) != 1 {
+				okAll = false
+				continue
+			}
+			switch p.rets[0] {
+			case inv:
+			case conv:
+				nConv++
+				if strings.Join(p.conds, " ") != strings.Join(wantConds, " ") {
+					okAll = false
 				}
+			default:
+				okAll = false
 			}
 		}
-		okInvRet := false
-		if ok && len(ifs.Body.List) == 1 {
-			if rs, ok := ifs.Body.List[0].(*ast.ReturnStmt); ok && len(rs.Results) == 1 {
-				s := exprStr(rs.Results[0])
-				if strings.Contains(s, "Invalid()") {
-					okInvRet = true
-				} else if cl, ok := rs.Results[0].(*ast.CompositeLit); ok && len(cl.Elts) == 1 {
-					if kv, ok := cl.Elts[0].(*ast.KeyValueExpr); ok {
-						if v, ok := exprInt(info, kv.Value); ok && v == 0x7FFFFFFF {
-							okInvRet = true
-						}
-					}
-				}
-			}
-		}
-		okConv := false
-		if rs, ok := fd.Body.List[1].(*ast.ReturnStmt); ok && len(rs.Results) == 1 {
-			if cl, ok := rs.Results[0].(*ast.CompositeLit); ok && len(cl.Elts) == 1 {
-				v := cl.Elts[0]
-				if kv, ok := v.(*ast.KeyValueExpr); ok {
-					v = kv.Value
-				}
-				okConv = strings.ReplaceAll(exprStr(v), " ", "") == "int32(degrees*degToSemiFactor)"
-			}
-		}
-		r.check(okG && okInvRet && okConv, "C17-R3-degree-guards", e.name, c.pos(fd.Pos()), fmt.Sprintf("rejects >= %v and <= -%v, else int32(degrees * degToSemiFactor)", e.limit, e.limit), fmt.Sprintf("%s: range guard ok=%v, returns invalid=%v, conversion ok=%v", e.name, okG, okInvRet, okConv))
+		// every path that is not the conversion path returns invalid, and since the conversion path's
+		// condition set is exactly {not >= limit, not <= -limit}, the others cover the complement
+		r.check(okAll && nConv == 1, "C17-R3-degree-guards", e.name, c.pos(fn.Pos()), fmt.Sprintf("rejects >= %s and <= -%s, else int32(degrees * degToSemiFactor)", e.limit, e.limit), fmt.Sprintf("%s is not `invalid when degrees >= %s or <= -%s, else int32(degrees * degToSemiFactor)`: paths %v %s", e.name, e.limit, e.limit, desc, o.why))
 	}
 
 	// ---- R4 factors ---------------------------------------------------------------------------------
